@@ -27,6 +27,7 @@ def shards(tier, seed):
     for i in range(parts):
         out.append(("small_%d" % i, dict(kind="small", lo=2, hi=top, part=i, parts=parts)))
     out.append(("curvevals", dict(kind="curvevals", reps=1 if q else 6)))
+    out.append(("concurrent", dict(kind="concurrent", runs=80 if q else 1000)))
     out.append(("pyopt_small", dict(kind="small", lo=2, hi=120, part=0, parts=2, _pyopt=True)))
     out.append(("pyopt_det_SECP160r1", dict(kind="det", cname="SECP160r1", count=3, _pyopt=True)))
     for i in range(4 if q else 16):
@@ -100,6 +101,19 @@ def run(ctx, name, kind, **kw):
                 retry = (n + d) % 4 if (n * d) % 3 == 0 else 0
                 extra = (b"", b"", b"\x07", b"extra entropy " * 3)[(n + 2 * d) % 4]
                 check_k(ctx, n, d, hname, dg, retry, extra, "k.small_order")
+    elif kind == "concurrent":
+        from vf import sched as S
+        jobs = []
+        for c in (lib.BY_NAME["SECP160r1"], lib.BY_NAME["NIST256p"], lib.BY_NAME["NIST521p"]):
+            n = lib.dom_of(c).n
+            for hname in ("sha1", "sha256", "blake2b_13"):
+                hf = lib.hash_by_name(hname)
+                d = rng.randrange(1, n)
+                dg = bytes(rng.getrandbits(8) for _ in range(rng.choice((20, 32, 70))))
+                for retry, extra in ((0, b""), (1, b"xx")):
+                    jobs.append(("generate_k", lambda n=n, d=d, hf=hf, dg=dg, retry=retry, extra=extra: rfc6979.generate_k(n, d, hf, dg, retry, extra), (),
+                                 rfc6979_ref.generate_k(n, d, hf, dg, retry, extra)))
+        S.concurrent_purity(ctx, S.codes_of(rfc6979) + S.codes_of(ecdsa.util, {"number_to_string", "number_to_string_crop", "orderlen", "bit_length"}), jobs, rng, kw["runs"])
     elif kind == "curvevals":
         vals = []
         for c in lib.ALL_CURVES:
